@@ -69,11 +69,13 @@ pub struct HCfg {
     /// properties whose clauses are evaluated in this world (empty: all). A violated clause of
     /// another property must not end the search for the property being decided.
     pub focus: Vec<String>,
+    /// further records the applications know (returned with a truthful who-are-you answer)
+    pub extra_known: Vec<Enr>,
 }
 
 impl Default for HCfg {
     fn default() -> Self {
-        HCfg { nodes: 2, workload: vec![], retries: 1, session_timeout: None, session_capacity: None, allow_drop: true, allow_dup: true, allow_reorder: true, allow_restart: vec![], allow_late_way: true, allow_early_timer: true, force_nonce: false, packet_filter: false, ghost: None, known_seq: 1, rate_limits: None, ipv6: false, free_app_timing: false, focus: vec![] }
+        HCfg { nodes: 2, workload: vec![], retries: 1, session_timeout: None, session_capacity: None, allow_drop: true, allow_dup: true, allow_reorder: true, allow_restart: vec![], allow_late_way: true, allow_early_timer: true, force_nonce: false, packet_filter: false, ghost: None, known_seq: 1, rate_limits: None, ipv6: false, free_app_timing: false, focus: vec![], extra_known: vec![] }
     }
 }
 
@@ -344,7 +346,8 @@ impl World {
     }
 
     pub fn violate(&mut self, prop: &str, clause: &str, key: &str, detail: String) {
-        if !self.cfg.focus.is_empty() && !self.cfg.focus.iter().any(|p| p == prop) {
+        // focus entries name a property ("C03") or one clause of it ("C03:expired-challenge-accepted")
+        if !self.cfg.focus.is_empty() && !self.cfg.focus.iter().any(|p| p == prop || *p == format!("{prop}:{key}")) {
             return;
         }
         self.violations.push(Violation { clause: clause.into(), key: format!("{prop}:{key}"), detail, replay: json!(null) });
@@ -762,6 +765,7 @@ impl World {
                         .map(|x| if self.cfg.known_seq > 1 { util::enr4(&x.key, self.cfg.known_seq, x.addr) } else { x.enr.clone() })
                         // the crafted peer's record (seq 1) is known to the application as well
                         .or_else(|| self.cfg.ghost.as_ref().filter(|g| g.2 && g.0.node_id() == w.0.node_id).map(|g| g.0.clone()))
+                        .or_else(|| self.cfg.extra_known.iter().find(|e| e.node_id() == w.0.node_id).cloned())
                 } else {
                     None
                 };
